@@ -566,9 +566,7 @@ def pbind_spec(rng, insts, tags, offgrid=False, rests=True, timing=True,
         if rng.random() < 0.1:
             m['sustain'] = _column(rng, n, [0.125, 0.5, 1, 2.5], 0.5, rp)
         if rng.random() < 0.08:
-            # (no Rest objects in delta: Ppar and Pdur rewrite the delta of
-            # the events that pass through them)
-            m['delta'] = _column(rng, n, [0, 0.25, 0.5, 1], 0.3)
+            m['delta'] = _column(rng, n, [0, 0.25, 0.5, 1], 0.3, op)
     if pitch:
         src = rng.choice(['degree', 'degree', 'midinote', 'freq', 'note', 'none'])
         if src == 'degree':
